@@ -24,6 +24,8 @@ from ..world import World, run_world
 
 ID = 'C15'
 LEVEL = 'exploration'
+QUICK_SCALE = 2.5      # the quick tier was enlarged by this factor after MIN_OBS['quick'] was measured
+QUICK_FIXED = ('exhaustive_gap_cases', 'send_failure_sweep_cases')      # counters of fixed-size parts (coverage, enumerations): not scaled
 ME = 'me'
 USERS = ('u1', 'u2')
 FLAGS = ('REQUESTED', 'FRIEND', 'TRANSFER')
@@ -84,7 +86,7 @@ MIN_OBS = {
                  'retries_judged': 15000, 'quiescence_checks': 60000, 'disconnects': 12000, 'exhaustive_gap_cases': 585, 'send_failure_sweep_cases': 144},
 }
 SHARD_TIMEOUT = {'quick': 600, 'thorough': 5400}
-N_RANDOM = {'quick': 1500, 'thorough': 60000}
+N_RANDOM = {'quick': 5000, 'thorough': 60000}
 EXHAUSTIVE = {'quick': False, 'thorough': False}   # only the named sub-space is exhaustive
 WHAT_FAILS = {
     'lost-call:track-while-worker-finishing': 'a track_user call that runs between the worker task returning and its '
